@@ -14,6 +14,12 @@ type Options struct {
 	LookbackDelta time.Duration
 
 	StepsBatch int64
+
+	// SelectEnd, when set, is the end of the whole query. Storage selects
+	// keep hinting it after End has been narrowed for a step-invariant part,
+	// as the Prometheus engine hints the query's range for every selector
+	// that is not pinned itself.
+	SelectEnd time.Time
 }
 
 func (o *Options) NumSteps() int {
@@ -31,6 +37,9 @@ func (o *Options) NumSteps() int {
 
 func (o *Options) WithEndTime(end time.Time) *Options {
 	result := *o
+	if result.SelectEnd.IsZero() {
+		result.SelectEnd = o.End
+	}
 	result.End = end
 	return &result
 }
